@@ -37,6 +37,7 @@ fn angle(rng: &mut Rng) -> f32 {
             let k = (rng.int(-4, 4) as f64 * std::f64::consts::FRAC_PI_2) as f32;
             rng.ulp_nudge(k)
         }
+        2 if rng.chance(1, 4) => rng.sign() * rng.log_f32(1e-6, 1e4), // tiny and many revolutions
         _ => rng.f32_in(-7.0, 7.0),
     }
 }
@@ -45,8 +46,16 @@ fn gen_factor(rng: &mut Rng) -> Factor {
     match rng.below(9) {
         0 => Factor::Translate([rng.f32_in(-5.0, 5.0), rng.f32_in(-5.0, 5.0), rng.f32_in(-5.0, 5.0)]),
         1 => {
-            let mut s = || rng.sign() * rng.log_f32(0.25, 4.0);
-            Factor::Scale([s(), s(), s()])
+            if rng.chance(1, 3) {
+                // a uniform scale of any magnitude is perfectly conditioned
+                // (κ = max(s, 1)/min(s, 1) through the affine row); small
+                // determinants come from here: scale(0.03) has det 2.7e-5
+                let k = rng.sign() * rng.log_f32(0.03, 30.0);
+                Factor::Scale([k, k * if rng.bool() { 1.0 } else { -1.0 }, k])
+            } else {
+                let mut s = || rng.sign() * rng.log_f32(0.25, 4.0);
+                Factor::Scale([s(), s(), s()])
+            }
         }
         2 => Factor::RotX(angle(rng)),
         3 => Factor::RotY(angle(rng)),
@@ -162,8 +171,12 @@ fn product_case(rng: &mut Rng, rep: &mut Report, idx: u64) {
             return;
         }
         // vectors: documented "implicit 1" semantics — apply(v) == apply_pt(v as point)
+        // (the statement's "linear part on vectors" is also accepted: the
+        // library marks its implicit 1 for vectors as a TODO)
         let v = m.apply(&vec3(p[0], p[1], p[2])).0;
-        if v.map(f32::to_bits) != whole.map(f32::to_bits) {
+        let lin64: [f64; 3] = std::array::from_fn(|i| (0..3).map(|j| to64(&m)[i][j] * p[j] as f64).sum());
+        let linear_only = (0..3).all(|c| (v[c] as f64 - lin64[c]).abs() <= tol);
+        if v.map(f32::to_bits) != whole.map(f32::to_bits) && !linear_only {
             rep.violation("mat.apply_vec_ne_documented", format!("apply(&vec) = {v:?} differs from apply_pt of the same coordinates {whole:?} (documented implicit homogeneous 1)"), cj());
             return;
         }
@@ -184,17 +197,28 @@ fn product_case(rng: &mut Rng, rep: &mut Report, idx: u64) {
         return;
     }
     // inverse
-    let Some(inv64) = geo::inverse_n(&m64) else { return };
+    // (the matrix actually inverted is the library's f32 product, not the
+    // f64 one: the compose error is not charged to inverse())
+    let m64 = to64(&m);
+    let Some(inv64) = geo::inverse_n(&m64) else {
+        rep.skip("inverse.singular_in_f64");
+        return;
+    };
     let cond = geo::norm_n(&m64) * geo::norm_n(&inv64);
     if !(cond <= 1e3) {
         rep.skip("inverse.condition_number_above_1e3");
         return;
     }
-    if !(det64.abs() > 1e-4) {
-        // the library documents a debug-mode panic for |det| <= f32::EPSILON
-        // ("near-singular"), whatever the conditioning; not judged
+    rep.count(if cond > 100.0 { "inverse.cond_1e2_1e3" } else if cond > 10.0 { "inverse.cond_1e1_1e2" } else { "inverse.cond_below_10" });
+    // the library documents a debug-mode panic for |det| <= f32::EPSILON
+    // ("near-singular"), whatever the conditioning: gated on the library's
+    // own f32 determinant, with a factor 4 for its rounding
+    if !(m.determinant().abs() > 4.0 * f32::EPSILON) {
         rep.skip("inverse.small_determinant(documented debug panic zone)");
         return;
+    }
+    if det64.abs() < 1e-4 {
+        rep.count("inverse.well_conditioned_with_small_determinant");
     }
     let inv = match catch(|| m.inverse()) {
         Ok(i) => i,
@@ -306,7 +330,26 @@ fn constructor_case(rng: &mut Rng, rep: &mut Report) {
             let lin: M3 = std::array::from_fn(|i| std::array::from_fn(|j| m64[i][j]));
             let det = geo::det3(&lin);
             let ortho_x = geo::dot3(ax, main).abs().max(geo::dot3(ax, other).abs());
-            if !(e_main <= 1e-6 && ortho <= 1e-5 && unit <= 1e-5 && det > 0.0 && ortho_x <= 1e-5 * geo::len3(n64).max(1.0)) {
+            // all three images against the construction the docs describe:
+            // the second axis is the normalised cross product that keeps the
+            // image of X on the side of the hint `x`, the third completes a
+            // right-handed basis (new × other resp. other × new)
+            let (want_other, want_x) = if which == 0 {
+                let z = geo::cross3(x64, n64);
+                let z = z.map(|c| c / geo::len3(z));
+                (z, geo::cross3(n64, z))
+            } else {
+                let y = geo::cross3(n64, x64);
+                let y = y.map(|c| c / geo::len3(y));
+                (y, geo::cross3(y, n64))
+            };
+            // conditioning: the cross product of nearly parallel inputs
+            let cond = geo::len3(n64) * geo::len3(x64) / geo::len3(cr);
+            let e_other = (0..3).map(|i| (other[i] - want_other[i]).abs()).fold(0.0, f64::max);
+            let e_x = (0..3).map(|i| (ax[i] - want_x[i]).abs()).fold(0.0, f64::max);
+            rep.worst("orient_axis_err/tol", (e_other / (4e-6 * cond)).max(e_x / (4e-6 * cond * geo::len3(n64).max(1.0))), 1.0, String::new);
+            let axes_ok = e_other <= 4e-6 * cond && e_x <= 4e-6 * cond * geo::len3(n64).max(1.0);
+            if !(e_main <= 1e-6 && ortho <= 1e-5 && unit <= 1e-5 && det > 0.0 && ortho_x <= 1e-5 * geo::len3(n64).max(1.0) && axes_ok) {
                 rep.violation("mat.orient_effect", format!("{name}(new={ny:?}, x={x:?}): image of the oriented axis {main:?}, other axis {other:?} (·new={:.2e}, ·x={:.2e}, |.|−1={unit:.2e}), det {det:.3}", geo::dot3(other, n64), geo::dot3(other, x64)), cj());
                 return;
             }
@@ -409,6 +452,47 @@ fn pivot_case(rep: &mut Report, rng: &mut Rng, k: u64) {
             rep.count("pivot_inverses");
         }
     }
+    // Dense 4×4 matrices whose last row is not (0,0,0,1): every cofactor of
+    // determinant() and every row of compose() takes part (in the affine
+    // products above a whole row of terms is multiplied by exact zeros).
+    let mut d = [[0.0f32; 4]; 4];
+    let mut e = [[0.0f32; 4]; 4];
+    for r in 0..4 {
+        for c in 0..4 {
+            d[r][c] = rng.f32_in(-2.0, 2.0);
+            e[r][c] = if rng.chance(1, 5) { 0.0 } else { rng.f32_in(-2.0, 2.0) };
+        }
+    }
+    let (dm, em): (T4, T4) = (Mat4x4::new(d), Mat4x4::new(e));
+    let (d64, e64) = (to64(&dm), to64(&em));
+    let hadamard = |m: &M4| -> f64 { m.iter().map(|r| r.iter().map(|x| x * x).sum::<f64>().sqrt()).product() };
+    let cj2 = || Json::obj().set("a", format!("{d:?}")).set("b", format!("{e:?}"));
+    for (mat, m64, name) in [(&dm, &d64, "a"), (&em, &e64, "b")] {
+        let (det, det64) = (mat.determinant() as f64, geo::det4(m64));
+        rep.worst("dense_determinant_err/hadamard_bound", (det - det64).abs() / hadamard(m64).max(1e-6), 4e-6, String::new);
+        if !((det - det64).abs() <= 4e-6 * hadamard(m64).max(1e-6)) {
+            rep.violation("mat.determinant_wrong", format!("dense 4×4 matrix {name}: determinant() = {det}, f64 gives {det64}"), cj2());
+            return;
+        }
+    }
+    let prod = dm.compose(&em);
+    let p64 = geo::mul4(&d64, &e64);
+    let scale = geo::norm_n(&d64) * geo::norm_n(&e64);
+    let err = max_abs_diff(&to64(&prod), &p64);
+    rep.worst("dense_compose_err/(norms)", err / scale.max(1e-6), 2e-6, String::new);
+    if !(err <= 2e-6 * scale.max(1e-6)) {
+        rep.violation("mat.compose_wrong", format!("dense 4×4: a.compose(&b) differs from the f64 product a·b by {err:.3e}"), cj2());
+        return;
+    }
+    let detp = prod.determinant() as f64;
+    let want = geo::det4(&d64) * geo::det4(&e64);
+    // error of an f32 cofactor expansion of the product: relative to the
+    // Hadamard bound of the product's rows, ‖row_i(a)‖·‖b‖
+    if !((detp - want).abs() <= 2e-5 * hadamard(&d64) * geo::norm_n(&e64).powi(4)) {
+        rep.violation("mat.determinant_wrong", format!("dense 4×4: det(a·b) = {detp}, det(a)·det(b) = {want}"), cj2());
+        return;
+    }
+    rep.count("dense_4x4_checks");
 }
 
 pub fn run(cfg: &Cfg, rep: &mut Report) {
@@ -422,6 +506,8 @@ pub fn run(cfg: &Cfg, rep: &mut Report) {
     rep.run_stream(cfg, 3, "pivot_patterns", cfg.n(24 * 2_000, 24 * 200_000), |rng, i, rep| pivot_case(rep, rng, i));
     rep.exhaustive.push("all 24 row orders of a scaled 4×4 permutation (every pivot pattern of the elimination)".into());
     rep.floor("compositions", 500_000);
+    rep.floor("inverse.cond_1e2_1e3", 2_000);
+    rep.floor("inverse.well_conditioned_with_small_determinant", 2_000);
     rep.floor("inverses", 200_000);
     rep.floor("inverses_needing_row_exchange", 20_000);
     rep.floor("constructor_effects", 100_000);
@@ -429,5 +515,6 @@ pub fn run(cfg: &Cfg, rep: &mut Report) {
     rep.floor("orient_checked", 50_000);
     rep.floor("mat3_checks", 100_000);
     rep.floor("pivot_inverses", 24 * 1_000);
+    rep.floor("dense_4x4_checks", 20_000);
     let _: Option<Vec3> = None;
 }
